@@ -188,3 +188,75 @@ func (p *Prog) liftPred(F *ssa.Function, pred func(ssa.Instruction) bool) func(s
 		return p.helperAlways(g, pred, 1)
 	}
 }
+
+// mustPassIP is mustPassOK across the private helpers of an anchor function:
+// it starts at an instruction that may sit inside a helper, continues after
+// the helper's call site(s) when a return that okReturn does not accept is
+// reached there, and treats a call to a family helper that always passes an
+// accepting instruction as passing.
+func (p *Prog) mustPassIP(anchor *ssa.Function, from ssa.Instruction, pass func(ssa.Instruction) bool, okReturn func(*ssa.Return) bool, forbidden func(ssa.Instruction) bool) (bool, ssa.Instruction) {
+	fam := p.family(anchor)
+	type item struct {
+		b *ssa.BasicBlock
+		i int
+	}
+	seen := map[*ssa.BasicBlock]bool{}
+	work := []item{{from.Block(), instrIndex(from) + 1}}
+	lifted := func(in ssa.Instruction) bool {
+		if pass(in) {
+			return true
+		}
+		if ci, ok := in.(*ssa.Call); ok {
+			if g := ci.Common().StaticCallee(); g != nil && g != anchor && fam[g] && g.Parent() == nil && g != in.Parent() {
+				return p.helperAlways(g, pass, 1)
+			}
+		}
+		return false
+	}
+	for len(work) > 0 {
+		it := work[len(work)-1]
+		work = work[:len(work)-1]
+		passed := false
+		for i := it.i; i < len(it.b.Instrs); i++ {
+			in := it.b.Instrs[i]
+			if lifted(in) {
+				passed = true
+				break
+			}
+			if forbidden != nil && forbidden(in) {
+				return false, in
+			}
+			if r, ok := in.(*ssa.Return); ok {
+				if okReturn != nil && okReturn(r) {
+					continue
+				}
+				fn := r.Parent()
+				if fn == anchor || !fam[fn] {
+					return false, r
+				}
+				// continue behind every call of the helper inside the family
+				sites := 0
+				for _, cs := range p.callersOf(fn) {
+					if !fam[cs.Parent()] {
+						continue
+					}
+					sites++
+					work = append(work, item{cs.Block(), instrIndex(cs) + 1})
+				}
+				if sites == 0 {
+					return false, r
+				}
+			}
+		}
+		if passed {
+			continue
+		}
+		for _, s := range it.b.Succs {
+			if !seen[s] {
+				seen[s] = true
+				work = append(work, item{s, 0})
+			}
+		}
+	}
+	return true, nil
+}
